@@ -622,6 +622,27 @@ class Interproc:
             op = None
             if v is not None and v[0] == "opt":
                 op = True if v[1] == "some" else False if v[1] == "none" else None
+            # the range of an integer payload, when this exit returns Some (hex_digit(c) -> Option<usize> below 16)
+            if ret.get("optpay", "?") is not None:
+                pi = None
+                if v is not None and v[0] == "opt" and v[1] == "none":
+                    pi = "none"
+                elif v is not None and v[0] == "opt" and v[1] in ("some", "cond"):
+                    pay = v[2] if v[1] == "some" else v[3]
+                    st2 = st
+                    if v[1] == "cond" and isinstance(v[2], tuple) and v[2] and v[2][0] == "conj":
+                        st2 = st.copy()
+                        for con in v[2][1]:
+                            st2.add_le(*con)
+                    if pay is not None and pay[0] in ("n", "iv") and not st2.bottom:
+                        i2 = st2.val_iv(pay)
+                        if i2[0] is not None and i2[1] is not None:
+                            pi = i2
+                if pi is None:
+                    ret["optpay"] = None
+                elif pi != "none":
+                    cur = ret.get("optpay", "?")
+                    ret["optpay"] = pi if cur == "?" else absdom.iv_join(cur, pi)
             if first:
                 ret["opt"] = op
             elif ret["opt"] != op:
@@ -1214,6 +1235,10 @@ class Interproc:
                 av = ctx.args[ai][0]
                 if av[0] == "ref" and av[1] is not None and not isinstance(av[1], str):
                     return ("ref", av[1], av[2] + v[2][1:])
+        op_ = ret.get("optpay", "?")
+        if ret.get("opt") is not False and op_ not in (None, "?") and dt is not None and self.f.types[dt]["s"].startswith(("std::option::Option<", "core::option::Option<")):
+            pay_ = ("iv", op_[0], op_[1])
+            return ("opt", "some", pay_) if ret.get("opt") is True else ("opt", "cond", ("unknown",), pay_)
         if ret.get("opt") is True:
             return ("opt", "some", None)
         if ret.get("opt") is False:
